@@ -1,46 +1,11 @@
 import CanvasProofs.Lemmas.C16Tiles
 /-!
-PREPARED, NOT YET IMPORTED by CanvasProofs/C16.lean: model and proof for reorderSpans as repaired by
-corpus/C16/fix-reorderspans-nested-levels.diff (every run of spans at a level or deeper is mirrored
-within its own extent, for every level that starts at a span). With it the tiling theorem holds for
-ALL embedding levels. On the switch the definitions of this file move to CanvasModel/C16.lean
-(replacing relayRev/relayout/reorderGo/reorder) and `fix_tiles` replaces `reorder_tiles`.
+Lemmas for C16 (c): reorderSpans (every run of spans at a level or deeper is mirrored within its own
+extent, for every level that starts at a span) re-tiles the interval of the line for ALL embedding
+levels. Model: `extent`, `mir`, `mirror`, `fixGo`, `reorder` in CanvasModel/C16.lean.
 -/
 namespace Canvas.C16.Fix
 open Canvas.C16
-
-section model
-variable {α : Type} [Add α] [Sub α] [LT α] [∀ a b : α, Decidable (a < b)]
-
-/-- `lo, hi` of a run: least X and greatest X+Width, scanned like the Go loop (seeded with the first span) -/
-def extent (s : Span α) (r : List (Span α)) : α × α :=
-  r.foldl (fun (lh : α × α) t =>
-    (if t.x < lh.1 then t.x else lh.1, if lh.2 < t.x + t.w then t.x + t.w else lh.2)) (s.x, s.x + s.w)
-
-def mir (lo hi : α) (t : Span α) : Span α := { t with x := lo + hi - t.x - t.w }
-
-/-- `if 1 < last-first { …; spans[i].X = lo + hi - spans[i].X - spans[i].Width }` -/
-def mirror : List (Span α) → List (Span α)
-  | [] => []
-  | [s] => [s]
-  | s :: t :: r => (s :: t :: r).map (mir (extent s (t :: r)).1 (extent s (t :: r)).2)
-
-/-- the repaired loop: at a span above `prev` the run at level `prev+1` or deeper is mirrored, deeper
-levels are handled inside the run, then the loop continues behind the run -/
-def fixGo : Nat → Nat → List (Span α) → List (Span α)
-  | 0, _, l => l
-  | _, _, [] => []
-  | fuel + 1, prev, s :: rest =>
-    if prev < s.level then
-      let inRun := rest.takeWhile (fun t => decide (prev + 1 ≤ t.level))
-      let tail := rest.drop inRun.length
-      fixGo fuel (prev + 1) (mirror (s :: inRun)) ++ fixGo fuel prev tail
-    else s :: fixGo fuel s.level rest
-
-def fuelFor (l : List (Span α)) : Nat := (l.length + 1) * ((l.map (·.level)).foldl max 0 + 2)
-
-def reorderFix (l : List (Span α)) : List (Span α) := fixGo (fuelFor l) 0 l
-end model
 
 /-! ## proofs over `Int` -/
 
@@ -332,12 +297,12 @@ theorem fixGo_tiles : ∀ (fuel prev : Nat) (l : List S) (a : Int), (∀ t ∈ l
 
 /-- `reorder_perm` at full strength for the repaired code: all level sequences -/
 theorem fix_tiles (x0 : Int) (l : List S) (hc : Contig x0 l) (hw : ∀ t ∈ l, 0 ≤ t.w) :
-    Tiles x0 (reorderFix l) :=
+    Tiles x0 (reorder l) :=
   fixGo_tiles _ 0 l x0 hw (Or.inl hc)
 
 /-- the three inputs on which the unrepaired code overlaps / misorders -/
-example : (reorderFix [(⟨2, 0, 3⟩ : S), ⟨2, 3, 4⟩, ⟨1, 7, 5⟩]).map (·.x) = [5, 8, 0] := by decide
-example : (reorderFix [(⟨1, 0, 1⟩ : S), ⟨2, 1, 1⟩, ⟨3, 2, 1⟩, ⟨3, 3, 1⟩, ⟨2, 4, 1⟩, ⟨1, 5, 1⟩]).map (·.x) = [5, 1, 3, 2, 4, 0] := by decide
-example : (reorderFix [(⟨0, 0, 1⟩ : S), ⟨2, 1, 2⟩, ⟨1, 3, 1⟩, ⟨0, 4, 1⟩]).map (·.x) = [0, 2, 1, 4] := by decide
+example : (reorder [(⟨2, 0, 3⟩ : S), ⟨2, 3, 4⟩, ⟨1, 7, 5⟩]).map (·.x) = [5, 8, 0] := by decide
+example : (reorder [(⟨1, 0, 1⟩ : S), ⟨2, 1, 1⟩, ⟨3, 2, 1⟩, ⟨3, 3, 1⟩, ⟨2, 4, 1⟩, ⟨1, 5, 1⟩]).map (·.x) = [5, 1, 3, 2, 4, 0] := by decide
+example : (reorder [(⟨0, 0, 1⟩ : S), ⟨2, 1, 2⟩, ⟨1, 3, 1⟩, ⟨0, 4, 1⟩]).map (·.x) = [0, 2, 1, 4] := by decide
 
 end Canvas.C16.Fix
